@@ -711,7 +711,61 @@ def _enum_internal(e: int, flip: bool) -> bool:
     return result(ok, bool(expected))
 
 
+# ---- SEVERAL unions sharing members: every union is compared on its own
+MU_MEMBERS = ("A", "B", "C", "D")
+MU_OLD = ((0b0011, 0b0011, 0b1100), (0b0111, 0b0110, 0b0001), (0b1111, 0b0001, 0b1000), (0b0101, 0b1010, 0b1111))
+
+
+def mu_sdl(masks, rev):
+    unions = ["union U%d = %s" % (k, " | ".join(m for i, m in enumerate(MU_MEMBERS) if masks[k] >> i & 1)) for k in range(3)]
+    fields = " ".join("u%d: U%d" % (k, k) for k in range(3))
+    types = ["type %s { %s: Int }" % (m, m.lower()) for m in MU_MEMBERS]
+    parts = ["type Query { %s }" % fields] + types + unions
+    if rev:
+        parts.reverse()
+    return " ".join(parts)
+
+
+def _multi_unions(old: int, f1: int, f2: int, rev_old: bool, rev_new: bool) -> bool:
+    """
+    pre: 0 <= old < len(MU_OLD) and 0 <= f1 < 12 and -1 <= f2 < 12 and f2 < f1
+    post: _
+    """
+    OLD, F1 = pick(old, MU_OLD), concrete_int(f1, 0, 11)
+    F2 = concrete_int(f2, -1, 11)
+    RO, RN = (True if rev_old else False), (True if rev_new else False)
+    with untraced():
+        newm = list(OLD)
+        for f in (F1, F2):
+            if f >= 0:
+                newm[f // 4] ^= 1 << (f % 4)
+        if any(m == 0 for m in newm):
+            return result(True, False)          # a union without members is not a schema
+        o, n = build_schema(mu_sdl(OLD, RO)), build_schema(mu_sdl(newm, RN))
+        got = sorted((type(c).__name__, c.message, int(c.severity)) for c in diff_schema(o, n))
+        exp = []
+        for k in range(3):
+            for i, m in enumerate(MU_MEMBERS):
+                was, now = OLD[k] >> i & 1, newm[k] >> i & 1
+                if was and not now:
+                    exp.append(("TypeRemovedFromUnion", "U%d" % k, m))
+                elif now and not was:
+                    exp.append(("TypeAddedToUnion", "U%d" % k, m))
+        # exactly one change per edited (union, member) pair, naming both; a removal is BREAKING
+        ok = len(got) == len(exp)
+        for cls, u, m in exp:
+            hits = [g for g in got if g[0] == cls and u in g[1] and m in g[1].replace(u, "")]
+            ok = ok and len(hits) == 1 and (cls != "TypeRemovedFromUnion" or hits[0][2] == int(SchemaChangeSeverity.BREAKING))
+    return result(ok, F2 >= 0)
+
+
 CONDITIONS = [
+    Cond(
+        name="multi_unions", fn=_multi_unions, quick=100, thorough=100,
+        bound="three unions over four shared object types, 4 old membership patterns x every single membership flip and every pair of flips (in one union or in two) x both definition orders of the old and of "
+              "the new schema: exactly one change per edited (union, member) pair naming both, removals BREAKING, nothing reported for the unions that did not change",
+        symbolic={"old,f1,f2,rev_old,rev_new": "choice"}, witness={"old": 0, "f1": 5, "f2": -1, "rev_old": False, "rev_new": False},
+    ),
     Cond(
         name="derived_new", fn=_derived_new, quick=60, thorough=60,
         bound="the new schema DERIVED from the old one (%d derivations: visibility transforms hiding a field / interface field / input field / type / enum / directive / two things, clone) x 2 definition orders of the old text: "
